@@ -136,8 +136,9 @@ func VerifC20CrossGraph(n, e int) {
 
 // VerifC20GraphCounts: a collection of a non-empty graph followed by an empty one whose
 // manifest is edited so that a graph's counts no longer match its fragment list (the empty
-// graph claims entities; the first graph's fragment list is emptied). Load must fail before
-// anything is written.
+// graph claims entities; the first graph's fragment list is emptied), or so that one
+// fragment's record count and its graph's total move together away from the fragment's
+// contents. Load must fail before anything is written.
 func VerifC20GraphCounts(n, e int) {
 	dir := verifWorkDir()
 	defer verifCleanupWorkDir(dir)
@@ -157,7 +158,22 @@ func VerifC20GraphCounts(n, e int) {
 	if err != nil || len(manifest.Graphs) != 2 {
 		verifrt.Fail("the dump has no readable manifest")
 	}
-	switch verifrt.NondetChoice("edit", 4) {
+	switch verifrt.NondetChoice("edit", 5) {
+	case 4:
+		// the record count of one fragment and the graph total move together (the manifest
+		// stays consistent with itself) away from what the fragment holds
+		files := manifest.Graphs[0].Files
+		f := verifrt.NondetChoice("fragment", len(files))
+		delta := 1
+		if verifrt.NondetChoice("count raised", 2) == 0 {
+			delta = -1
+		}
+		files[f].Count += delta
+		if files[f].Phase == PhaseNodes {
+			manifest.Graphs[0].NodeCount += int64(delta)
+		} else {
+			manifest.Graphs[0].EdgeCount += int64(delta)
+		}
 	case 0:
 		manifest.Graphs[1].NodeCount = 1
 	case 1:
